@@ -48,7 +48,8 @@ LEVEL_NOTE = ("PARTIAL: only fault-derived inputs. Structural shapes no storage 
               "no longer decodes to an odML-shaped dict is counted as unjudged.")
 DESIGN_REF = "DESIGN.md 4 (C16)"
 ASSUMPTIONS = ["'shaped like an odML dictionary' = root dict whose 'Document' is a dict and whose "
-               "sections / properties entries are, recursively, lists of dicts"]
+               "sections / properties entries are, recursively, lists of dicts or empty (None: what "
+               "'sections:' with its list lines lost decodes to)"]
 
 READ_TIMEOUT = 8
 DTYPE_VALUES = [
@@ -310,6 +311,8 @@ def shaped(obj):
         return False
 
     def secs_ok(lst):
+        if lst is None:
+            return True       # 'sections:' with nothing behind it: an empty child container
         if not isinstance(lst, list):
             return False
         for sec in lst:
@@ -317,7 +320,7 @@ def shaped(obj):
                 return False
             if "sections" in sec and not secs_ok(sec["sections"]):
                 return False
-            if "properties" in sec:
+            if "properties" in sec and sec["properties"] is not None:
                 if not isinstance(sec["properties"], list) or \
                         not all(isinstance(p, dict) for p in sec["properties"]):
                     return False
